@@ -788,3 +788,25 @@ Check SrcTie3Reader.no_metadata_refused.
 Theorem C08_tie_no_metadata_refused : ltac:(let t := type of SrcTie3Reader.no_metadata_refused in exact t).
 Proof. exact SrcTie3Reader.no_metadata_refused. Qed.
 Print Assumptions C08_tie_no_metadata_refused.
+
+(* ---------- Tie A, level 1: compress.rs translated (work package compT, gen/Src3c.v) ---------- *)
+(* the translated compression reader and fail-safe decompressor are the model's on every input (the Empty guards of D11/D13 included) *)
+From MLA Require SrcTie3Comp SrcTie3CompFs SrcTie3CompCarry.
+Theorem C08_tie_comp_read_sim : ltac:(let t := type of SrcTie3Comp.comp_read_sim in exact t).
+Proof. exact SrcTie3Comp.comp_read_sim. Qed.
+Print Assumptions C08_tie_comp_read_sim.
+Theorem C08_tie_comp_seek_sim : ltac:(let t := type of SrcTie3Comp.comp_seek_sim in exact t).
+Proof. exact SrcTie3Comp.comp_seek_sim. Qed.
+Print Assumptions C08_tie_comp_seek_sim.
+Theorem C08_tie_comp_initialize_src : ltac:(let t := type of SrcTie3Comp.comp_initialize_src in exact t).
+Proof. exact SrcTie3Comp.comp_initialize_src. Qed.
+Print Assumptions C08_tie_comp_initialize_src.
+Theorem C08_tie_fs_pass_sim : ltac:(let t := type of SrcTie3CompFs.fs_pass_sim in exact t).
+Proof. exact SrcTie3CompFs.fs_pass_sim. Qed.
+Print Assumptions C08_tie_fs_pass_sim.
+Theorem C08_tie_fs_comp_read_sim : ltac:(let t := type of SrcTie3CompFs.fs_comp_read_sim in exact t).
+Proof. exact SrcTie3CompFs.fs_comp_read_sim. Qed.
+Print Assumptions C08_tie_fs_comp_read_sim.
+Theorem C08_tie_C08_comp_usable_after_error_src : ltac:(let t := type of SrcTie3CompCarry.C08_comp_usable_after_error_src in exact t).
+Proof. exact SrcTie3CompCarry.C08_comp_usable_after_error_src. Qed.
+Print Assumptions C08_tie_C08_comp_usable_after_error_src.
